@@ -34,6 +34,10 @@ def setup(run):
     return fixmon.attach_all(run, rt)
 
 
+def finalize(run):
+    fixmon.finalize(run)
+
+
 def gen_case(rng, big=False, no_gc=False, empty_anti=False, lone=False, dead_anti=False):
     prefix = "chr" if rng.random() < 0.7 else ""
     pool = ["1", "2", "3", "11", "X", "Y"]
@@ -332,3 +336,4 @@ QUOTA_WAIVERS = {
 QUOTAS = {"quick": _Q, "thorough": {k: v * (8 if "cli" not in k else 6) for k, v in _Q.items()}}
 
 INTERNAL_MONITORS = {"fix.match_ref_to_sample": [], "fix.center_by_window": [], "fix.get_edge_bias": []}
+QUOTA_WAIVERS["do_fix-calls-with-corrections-not-observable"] = {"waive": ["fix.center_by_window|held"], "require": {"fix.do_fix|held": 150, "fix.do_fix[invariance]|held": 350}}
